@@ -573,6 +573,27 @@ func requirePropagates(c *Ctx, rule string, fn *ssa.Function, m CallMatcher, wha
 	fail := g.FailEdges(fn)
 	construct := FuncName(fn) + "|propagates " + what + " error"
 	if len(fail) == 0 {
+		// `return f(...)`: the verdict itself is returned
+		calls := CallSinks(fn, m, false)
+		verdict := len(calls) > 0
+		for _, cs := range calls {
+			v, ok := cs.(ssa.Value)
+			if !ok || v.Referrers() == nil {
+				verdict = false
+				continue
+			}
+			for _, r := range *v.Referrers() {
+				if _, isRet := r.(*ssa.Return); !isRet {
+					if _, isDbg := r.(*ssa.DebugRef); !isDbg {
+						verdict = false
+					}
+				}
+			}
+		}
+		if verdict {
+			c.Hold(rule, construct, c.P.Pos(fn.Pos()), "the result of "+what+" is returned as the function's own verdict")
+			return
+		}
 		c.Violate(rule, construct, c.P.Pos(fn.Pos()), "the error of "+what+" is not tested")
 		return
 	}
